@@ -150,7 +150,7 @@ def run(chk, repo):
     chk.attempt(r3, chk, repo, L)
     chk.attempt(r4, chk, repo, L)
     chk.attempt(trace_positions, chk, repo)
-    chk.attempt(r5, chk, repo, L, covered_by="trace_positions")
+    chk.attempt(r5, chk, repo, L, covered_by="trace_positions", rules=("C01-R5",))
     chk.attempt(r6, chk, repo, L)
     chk.attempt(r7, chk, repo)
     chk.attempt(r8, chk, repo)
